@@ -54,6 +54,23 @@ CLAIMED = {
              "contents and their order beyond the raw option list), byte-for-byte idempotence, variable-length tails after "
              "the first option loop of a constructor.",
     ),
+    "C04": dict(
+        category="other",
+        design_ref="DESIGN.md section 3 / C04",
+        technique="static analysis: byte-offset layouts of typed option encoders and decoders from their cursor operations "
+                  "(E-STREAMFX), constant-code pairing of same-name accessors, cache-pair typestate on the CFG, lookup/removal "
+                  "shape rules, sibling cross-check of PDUOption's storage predicate, finite evaluation of the IPv6 "
+                  "extension-header length byte",
+        text="Structural part. Decides: (R1) the 24 stream-based typed option codecs agree, at every byte offset of their fixed "
+             "part, on item width and byte order, and the decoder's length guard accepts the encoder's length; (R2) 96 "
+             "same-name setter/getter pairs use one option code; (R3) add/remove keep cached sizes in step (= C02.R2); (R4) "
+             "searches are first-match from begin() and remove erases exactly the found iterator; (R5) all PDUOption members "
+             "use one inline/heap predicate; (R6) IPv6 extension headers announce exactly the bytes written (found and fixed "
+             "the 7-mod-8 length defect).",
+        note="NOT decided: the shadow-model clause over arbitrary edit histories, codecs that use pointer arithmetic or "
+             "containers instead of cursors (shape not comparable), variable-length tails, DNS names, ICMPv6 option length "
+             "units for payloads the caller did not pad, value ranges.",
+    ),
     "C05": dict(
         category="other",
         design_ref="DESIGN.md section 3 / C05",
